@@ -151,6 +151,9 @@ Hypothesis Hl : 0 <= lsh < b.
 
 Let H := 2 ^ (w - 2).
 
+Lemma H_pos : 0 < H.
+Proof. apply pow2_pos; lia. Qed.
+
 (* low part of a limb: digit of radix b - lsh, shifted; carry of radix b - lsh *)
 Lemma low_part (a : Z) : Z.abs a <= H ->
   let d := get_digit w (b - lsh) a in
@@ -180,17 +183,19 @@ Qed.
 Lemma first_step_assign_ideal (a : Z) : Z.abs a <= H ->
   first_step_assign w b lsh a = (wrap b (a * 2 ^ lsh), bdiv b (a * 2 ^ lsh)).
 Proof.
-  intros Ha. destruct (low_part a Ha) as (E1 & E2 & _). cbv zeta in *.
-  unfold first_step_assign. destruct (Z.eqb_spec lsh 0) as [E0|Hne].
-  - replace (b - lsh) with b in * by lia. rewrite E1, E2. reflexivity.
-  - rewrite E1, E2. reflexivity.
+  intros Ha. destruct (low_part a Ha) as (E1 & E2 & _).
+  unfold first_step_assign. cbv zeta in *. revert E1 E2.
+  destruct (Z.eqb_spec lsh 0) as [E0|Hne]; intros E1 E2.
+  - replace (b - lsh) with b in * by lia. rewrite E2, E1. reflexivity.
+  - rewrite E2, E1. reflexivity.
 Qed.
 
 Lemma first_step_carry_only_ideal (a : Z) : Z.abs a <= H ->
   first_step_carry_only w b lsh a = bdiv b (a * 2 ^ lsh).
 Proof.
-  intros Ha. destruct (low_part a Ha) as (E1 & E2 & _). cbv zeta in *.
-  unfold first_step_carry_only. destruct (Z.eqb_spec lsh 0) as [E0|Hne].
+  intros Ha. destruct (low_part a Ha) as (E1 & E2 & _).
+  unfold first_step_carry_only. cbv zeta in *. revert E1 E2.
+  destruct (Z.eqb_spec lsh 0) as [E0|Hne]; intros E1 E2.
   - replace (b - lsh) with b in * by lia. exact E2.
   - exact E2.
 Qed.
@@ -215,8 +220,8 @@ Proof.
   intros Ha Hx. destruct (low_part a Ha) as (E1 & E2 & E3).
   assert (Hadd : forall s, in_range b s -> (if ov then s else wadd w x s) = (if ov then 0 else x) + s).
   { intros s Hs. destruct ov; [lia|]. apply wadd_digit_exact; auto. }
-  cbv zeta in *.
-  unfold first_step. destruct (Z.eqb_spec lsh 0) as [E0|Hne].
+  unfold first_step. cbv zeta in *. revert E1 E2 E3.
+  destruct (Z.eqb_spec lsh 0) as [E0|Hne]; intros E1 E2 E3.
   - replace (b - lsh) with b in * by lia. rewrite E2, <- E1. f_equal. apply Hadd; exact E3.
   - rewrite E2, <- E1. f_equal. apply Hadd; exact E3.
 Qed.
@@ -246,7 +251,7 @@ Proof.
   rewrite Ev, wrap_add_mul, bdiv_add_mul by lia.
   f_equal.
   assert (Hk : Z.abs (bdiv b (a * 2 ^ lsh + c)) <= H).
-  { apply bdiv_chain; try lia. apply shifted_bound; auto; unfold H; lia. }
+  { pose proof H_pos. apply bdiv_chain; try lia. apply shifted_bound; auto; lia. }
   rewrite Ev, bdiv_add_mul in Hk by lia.
   unfold wadd. rewrite Z.add_comm. apply wrap_id; [lia|]. unfold in_range. rewrite Hw. lia.
 Qed.
@@ -268,7 +273,7 @@ Proof.
   - assert (Z.abs (a * 2 ^ lsh + c) <= Z.abs a * 2 ^ lsh + Z.abs c).
     { rewrite <- (Z.abs_eq (2 ^ lsh)) at 2 by lia. rewrite <- Z.abs_mul. apply Z.abs_triangle. }
     lia.
-  - apply bdiv_chain; try lia. apply shifted_bound; auto; unfold H; lia.
+  - pose proof H_pos. apply bdiv_chain; try lia. apply shifted_bound; auto; lia.
 Qed.
 
 Theorem first_step_assign_spec (a : Z) : Z.abs a <= H ->
@@ -285,8 +290,8 @@ Proof.
   - apply wrap_range; lia.
   - apply wrap_range; lia.
   - rewrite Z.abs_mul, (Z.abs_eq (2 ^ lsh)) in Hk by lia. lia.
-  - replace (a * 2 ^ lsh) with (a * 2 ^ lsh + 0) by lia.
-    apply bdiv_chain; try lia; [unfold H; lia|]. apply shifted_bound; auto; unfold H; lia.
+  - replace (a * 2 ^ lsh) with (a * 2 ^ lsh + 0) by lia. pose proof H_pos.
+    apply bdiv_chain; try lia. apply shifted_bound; auto; lia.
 Qed.
 
 Theorem first_step_spec (ov : bool) (x a : Z) : Z.abs a <= H -> (ov = false -> Z.abs x <= H) ->
@@ -310,7 +315,7 @@ Qed.
 Lemma first_is_middle (a : Z) : Z.abs a <= H ->
   first_step_assign w b lsh a = middle_core w b lsh a 0.
 Proof.
-  intros Ha. rewrite first_step_assign_ideal, middle_core_ideal by (auto; unfold H; lia).
+  intros Ha. pose proof H_pos. rewrite first_step_assign_ideal, middle_core_ideal by (auto; lia).
   rewrite Z.add_0_r. reflexivity.
 Qed.
 
@@ -354,6 +359,37 @@ Qed.
 Lemma final_is_middle (a c : Z) : Z.abs a <= H -> Z.abs c <= H ->
   final_core w b lsh a c = fst (middle_core w b lsh a c).
 Proof. intros Ha Hc. rewrite final_core_ideal, middle_core_ideal by auto. reflexivity. Qed.
+
+(* ---------- the add / sub / overwrite variants ---------- *)
+
+Lemma middle_step_ideal (ov : bool) (x a c : Z) : Z.abs a <= H -> Z.abs c <= H -> (ov = false -> Z.abs x <= H) ->
+  middle_step w ov b lsh x a c =
+    ((if ov then 0 else x) + wrap b (a * 2 ^ lsh + c), bdiv b (a * 2 ^ lsh + c)).
+Proof.
+  intros Ha Hc Hx. unfold middle_step. rewrite middle_core_ideal by auto. f_equal.
+  destruct ov; [lia|]. apply wadd_digit_exact; auto. apply wrap_range; lia.
+Qed.
+
+Lemma middle_step_sub_ideal (x a c : Z) : Z.abs a <= H -> Z.abs c <= H -> Z.abs x <= H ->
+  middle_step_sub w b lsh x a c = (x - wrap b (a * 2 ^ lsh + c), bdiv b (a * 2 ^ lsh + c)).
+Proof.
+  intros Ha Hc Hx. unfold middle_step_sub. rewrite middle_core_ideal by auto. f_equal.
+  apply wsub_digit_exact; auto. apply wrap_range; lia.
+Qed.
+
+Lemma final_step_ideal (ov : bool) (x a c : Z) : Z.abs a <= H -> Z.abs c <= H -> (ov = false -> Z.abs x <= H) ->
+  final_step w ov b lsh x a c = (if ov then 0 else x) + wrap b (a * 2 ^ lsh + c).
+Proof.
+  intros Ha Hc Hx. unfold final_step. rewrite final_core_ideal by auto.
+  destruct ov; [lia|]. apply wadd_digit_exact; auto. apply wrap_range; lia.
+Qed.
+
+Lemma final_step_sub_ideal (x a c : Z) : Z.abs a <= H -> Z.abs c <= H -> Z.abs x <= H ->
+  final_step_sub w b lsh x a c = x - wrap b (a * 2 ^ lsh + c).
+Proof.
+  intros Ha Hc Hx. unfold final_step_sub. rewrite final_core_ideal by auto.
+  apply wsub_digit_exact; auto. apply wrap_range; lia.
+Qed.
 
 End Steps.
 
